@@ -138,7 +138,14 @@ def g_seq_zeroes(rng):
 
 
 def g_one_or_zero_nine(rng):
-    return ("range", rng.choice("01"), "9")
+    # mostly the documented leading classes [0-9] / [1-9]; sometimes a narrower leading class or a single leading
+    # digit (for which "[d-9][0-9]*" does NOT denote an interval from d upwards)
+    r = rng.random()
+    if r < 0.75:
+        return ("range", rng.choice("01"), "9")
+    if r < 0.92:
+        return ("range", rng.choice("2345789"), "9")
+    return ("str", rng.choice("1259"))
 
 
 def g_first_union(rng):
